@@ -13,10 +13,10 @@ cd $wt
 mkdir -p build/asm build/common build/core build/disasm build/fileio build/simulate build/table
 # clean build first: demo must pass
 make -j16 -C build >/dev/null 2>&1 || { echo "clean build failed"; exit 2; }
-sh $src/demo.sh $wt >/dev/null 2>&1; clean_rc=$?
+bash $src/demo.sh $wt >/dev/null 2>&1; clean_rc=$?
 git apply $src/patch.diff || { echo "patch does not apply"; git -C /repo worktree remove --force $wt; exit 2; }
 make -j16 -C build >/dev/null 2>&1; build_rc=$?
-sh $src/demo.sh $wt >/dev/null 2>&1; mut_rc=$?
+bash $src/demo.sh $wt >/dev/null 2>&1; mut_rc=$?
 make -k -j8 tests > /tmp/confirm-$id.log 2>&1
 pass=$(grep -c PASS /tmp/confirm-$id.log); fail=$(grep -ci fail /tmp/confirm-$id.log)
 mkdir -p $dst
